@@ -19,12 +19,32 @@ class Zoo:
         self.k = 0
         self.slots: list[str] = []
         self.extra: dict = {}
+        self.depth = 0
+        self.nest_p = 0.0
+        self.one_line = False
+        self.extra_nested = None
 
     def lit(self) -> str:
         self.k += 1
         return str(self.tag * 100 + self.k)
 
+    NESTABLE = ["binop", "if", "apply", "let", "with", "assert", "lambda", "has_attr", "select", "list", "set"]
+
     def atom(self) -> str:
+        if self.depth == 0 and self.rng.random() < self.nest_p:
+            # a construct inside the construct: written on one line, in parentheses (what it renders to is the
+            # library's business - a one-line `let` comes back on several lines inside whatever holds it)
+            self.depth += 1
+            kind = self.rng.choice(self.NESTABLE)
+            saved = self.one_line
+            self.one_line = True
+            try:
+                inner = self.construct(kind, "")
+            finally:
+                self.one_line = saved
+                self.depth -= 1
+            self.extra_nested = kind
+            return "(" + inner + ")" if kind not in ("list", "set") else inner
         r = self.rng.random()
         if r < 0.4:
             return self.lit()
@@ -43,6 +63,9 @@ class Zoo:
 
     def gap(self, ind: str, *, allow_empty: bool = False, weights=None) -> str:
         kinds = GAP_KINDS
+        if self.one_line:
+            self.slots.append("sp")
+            return " "
         kind = self.rng.choices(kinds, weights=weights or [6, 3, 1, 1, 1, 1, 0.5, 0.7, 0.7])[0]
         self.slots.append(kind)
         self.k += 1
@@ -103,7 +126,7 @@ class Zoo:
             head = self.rng.choice(["x:", "{ a, b }:", "{ a ? 1, ... }:", "args@{ a, ... }:"])
             return head + g() + a()
         if kind == "select":
-            return self.rng.choice(["a.b.c", "a.b or" + g() + a(), "(f x).y"])
+            return self.rng.choice(["a.b.c", "a.b or" + g() + a(), "(f x).y", "a.b" + g() + "or" + g() + a()])
         if kind == "has_attr":
             return "a" + g() + "?" + g() + "b"
         if kind == "unary":
@@ -175,9 +198,31 @@ class Zoo:
             else:
                 text = "{\n  pre = 1;\n  " + member + ";\n  post = 2;\n}\n"
             return text, {"construct": "inherit", "place": "let_layer" if in_let else "set", "gaps": sorted(set(self.slots)), "gap_seq": list(self.slots)}
-        place = rng.choice(["binding", "binding", "binding", "toplevel", "let_binding", "list_item"])
+        place = rng.choice(["binding", "binding", "binding", "toplevel", "let_binding", "list_item", "inline_list", "formal_default", "inline_set", "call_arg"])
         self.slots = []
         self.extra = {}
+        self.extra_nested = None
+        self.nest_p = rng.choice([0.0, 0.0, 0.15, 0.4])
+        if place in ("inline_list", "formal_default", "inline_set", "call_arg"):
+            # the construct is written on one line inside a one-line holder
+            self.one_line = True
+            try:
+                val = self.construct(kind, "")
+            finally:
+                self.one_line = False
+            wrapped = val if kind in ("list", "set", "string", "paren") or (kind == "select" and " or" not in val) else "(" + val + ")"
+            holder = {
+                "inline_list": "[ 1 %s ]",
+                "formal_default": "{ a ? %s, b }: a",
+                "inline_set": "{ k = %s; j = 2; }",
+                "call_arg": "f %s 2",
+            }[place]
+            if place in ("formal_default", "inline_set"):
+                wrapped = val  # no parentheses needed in these positions
+            body = holder % wrapped
+            text = rng.choice(["%s\n", "{\n  v = %s;\n}\n"]) % body
+            facts = {"construct": kind, "place": place, "gaps": ["sp"], "gap_seq": [kind, place, self.extra_nested, text.count("\n")], "nested": self.extra_nested}
+            return text, facts
         if place == "toplevel":
             body = self.construct(kind, "")
             text = body + "\n"
@@ -193,6 +238,6 @@ class Zoo:
             if kind in ("binop", "if", "apply", "let", "with", "assert", "lambda", "has_attr", "unary", "select"):
                 val = "(" + val + ")"
             text = "{\n  l = [\n    1\n    " + val + "\n    3\n  ];\n}\n"
-        facts = {"construct": kind, "place": place, "gaps": sorted(set(self.slots)), "gap_seq": list(self.slots)}
+        facts = {"construct": kind, "place": place, "gaps": sorted(set(self.slots)), "gap_seq": list(self.slots), "nested": self.extra_nested}
         facts.update(self.extra)
         return text, facts
